@@ -83,6 +83,10 @@ fn slice_points(h: &Hist, b: &H) -> u64 {
 
 /// One ingestion opportunity under a slicing plan, with monitors at every pause point.
 pub fn sliced_opportunity(h: &mut Hist, ctx: &mut Ctx, sl: &mut Slicer) -> bool {
+    sliced_opportunity_with(h, ctx, sl, None)
+}
+
+pub fn sliced_opportunity_with(h: &mut Hist, ctx: &mut Ctx, sl: &mut Slicer, page_limits: Option<&[usize]>) -> bool {
     if h.desync.is_some() {
         return false;
     }
@@ -167,6 +171,14 @@ pub fn sliced_opportunity(h: &mut Hist, ctx: &mut Ctx, sl: &mut Slicer) -> bool 
                 // model-based monitors at the pause point (model anchor = last completed block)
                 if !h.compare_anchor(ctx, &best_before) {
                     return false;
+                }
+                if let Some(limits) = page_limits {
+                    for l in limits {
+                        mon::check_c01(h, ctx, Some(*l));
+                    }
+                    if ctx.prop == "C05" {
+                        mon::check_c05(h, ctx, Some(2), &[], 4);
+                    }
                 }
                 match ctx.prop.as_str() {
                     "C07" => mon::check_c07(h, ctx, true, 25),
@@ -360,5 +372,84 @@ pub fn lane_slice_exhaustive(ctx: &mut Ctx) {
     }
     if ctx.only_case.is_none() {
         ctx.cov.exhaustive = Some(all_done);
+    }
+}
+
+/// Designed shape (order stress for the merged iterators): an address with stable UTXOs at several
+/// heights, of which the block being ingested spends some; at every pause point the address is
+/// paged with small limits.
+pub fn lane_slice_order(ctx: &mut Ctx) {
+    use crate::gen;
+    let max_cases = if ctx.tier == Tier::Quick { 48 } else { 100_000 };
+    for k in ctx.cases("sliceorder", max_cases) {
+        if !ctx.time_left() {
+            break;
+        }
+        ctx.begin("sliceorder", k);
+        let mut rng = Rng::derive(&[ctx.seed, fp_str("sliceorder"), k]);
+        let mut cfg = cfg_for(&mut rng);
+        cfg.path = Path::Insert;
+        cfg.threshold = 1;
+        cfg.fork_pct = 0;
+        cfg.palette = Palette::One;
+        let mut h = Hist::new(cfg, rng);
+        let target = h.uni.addrs[h.rng.usize_below(h.uni.addrs.len())].clone();
+        let other = h.uni.addrs[h.rng.usize_below(h.uni.addrs.len())].clone();
+        let mut sl = Slicer::new(Plan::Unsliced, Rng::new(1));
+        let mut funded: Vec<(crate::parse::H, u32)> = vec![];
+        let mut ok = true;
+        // funding blocks
+        let n_fund = h.rng.range(2, 4);
+        for _ in 0..n_fund {
+            let tip = *h.model.best_chains()[0].last().unwrap();
+            let height = h.model.blocks[&tip].height + 1;
+            h.uniq += 1;
+            let n_out = h.rng.range(2, 6) as usize;
+            let outs: Vec<(u64, Vec<u8>)> = (0..n_out).map(|i| (if h.rng.chance(1, 6) { 0 } else { 1000 + i as u64 }, target.script.clone())).collect();
+            let cb = gen::coinbase_tx(height, h.uniq, outs);
+            use bitcoin::hashes::Hash;
+            let id = cb.compute_txid().to_byte_array();
+            for i in 0..n_out {
+                funded.push((id, i as u32));
+            }
+            let b = gen::make_block(h.net(), tip, h.model.blocks[&tip].time + 60, vec![cb], true);
+            if h.deliver(b, 1, ctx).is_none() || !sliced_opportunity(&mut h, ctx, &mut sl) {
+                ok = false;
+                break;
+            }
+        }
+        if !ok {
+            continue;
+        }
+        // the spending block: takes a random subset of the funded outputs, pays some back to the target
+        let tip = *h.model.best_chains()[0].last().unwrap();
+        let height = h.model.blocks[&tip].height + 1;
+        h.uniq += 1;
+        let mut picks = funded.clone();
+        h.rng.shuffle(&mut picks);
+        picks.truncate(h.rng.range(1, funded.len() as u64 - 1) as usize);
+        let mut txs = vec![gen::coinbase_tx(height, h.uniq, vec![(5, other.script.clone())])];
+        for chunk in picks.chunks(2) {
+            let outs = vec![(1, target.script.clone()), (1, other.script.clone())];
+            txs.push(gen::spend_tx(chunk, outs, 0, 10, &mut h.rng));
+        }
+        let b = gen::make_block(h.net(), tip, h.model.blocks[&tip].time + 60, txs, true);
+        if h.deliver(b, 1, ctx).is_none() || !sliced_opportunity(&mut h, ctx, &mut sl) {
+            continue;
+        }
+        // the next block makes the spending block stabilise: ingest it in single steps
+        let tip = *h.model.best_chains()[0].last().unwrap();
+        let b = h.gen_block(&tip);
+        if h.deliver(b, 1, ctx).is_none() {
+            continue;
+        }
+        sl.plan = Plan::AllOnes;
+        // sliced_opportunity runs check_c01(limit 2) + ranges for C08; page with other limits as well
+        let before_pauses = sl.pause_points;
+        if !sliced_opportunity_with(&mut h, ctx, &mut sl, Some(&[1usize, 2, 3])) {
+            continue;
+        }
+        ctx.cov.add("c08_order_stress_pause_points", sl.pause_points - before_pauses);
+        ctx.cov.count("c08_order_stress_cases");
     }
 }
